@@ -233,12 +233,16 @@ def _full_case(group, P, lam, which):
     cfg = C07_full.field_cfg("bls12_381", group, "opt")
     opt = importlib.import_module("py_ecc.optimized_bls12_381")
     F = cfg.F
+    fqc = False
+    if isinstance(lam, tuple) and len(lam) == 2 and lam[0] == "fq":
+        fqc, lam = True, lam[1]
     if P is None:
-        reps = [tuple(cfg.lib(c) for c in t) for t in
+        mk = cfg.lib_fq if fqc else cfg.lib
+        reps = [tuple(mk(c) for c in t) for t in
                 ((F.one, F.one, F.zero), (F.zero, F.one, F.zero), (F.el(2), F.el(5), F.zero))]
         rep = reps[lam if isinstance(lam, int) and lam < 3 else 0]
     else:
-        rep = lib.opt_pt(cfg, P, lam)
+        rep = lib.opt_pt(cfg, P, lam, fqc)
     if which == "subgroup_check":
         exp = E.mul(P, d["r"]) is None
         return exp, _verdict(_g2p().subgroup_check, rep)
@@ -265,8 +269,12 @@ def task_full(a, env):
     r.notes["cofactor_primes_found"] = {str(q): 1 for q in primes}
     d = params.curves()["bls12_381"]
     sel = dom[a["lo"]::a["step"]]
+    # G2: every representative additionally with FQ-object coefficients (same values)
+    fqvariants = (group == "E2")
     for (label, P) in sel:
-        for li, lam in enumerate(lams if P is not None else [0, 1, 2]):
+        base = list(lams if P is not None else [0, 1, 2])
+        allreps = base + ([("fq", x) for x in base[:2]] if fqvariants else [])
+        for li, lam in enumerate(allreps):
             for which in ("subgroup_check", "clear_cofactor"):
                 exp, got = _full_case(group, P, lam, which)
                 r.ev += 1
@@ -293,7 +301,9 @@ def replay_full(a):
     if not thorough:
         lams = lams[:1] + lams[-1:]
     label, P = dom[a["idx"]]
-    lam = a["li"] if P is None else lams[a["li"]]
+    base = list(lams if P is not None else [0, 1, 2])
+    allreps = base + ([("fq", x) for x in base[:2]] if a["group"] == "E2" else [])
+    lam = allreps[a["li"]]
     exp, got = _full_case(a["group"], P, lam, a["which"])
     return None if exp == got else {"label": label, "expected": exp, "observed": got}
 
